@@ -28,10 +28,25 @@ inductive Loc where
   | deferred (pri : Int)
 deriving DecidableEq, Repr
 
+/-- the envelope of a message that must survive every path unchanged (C07): the publish timestamp
+`Message.Timestamp` and the body (abstract: the harness passes a checksum of the bytes). The id is
+the key everything is indexed by. -/
+structure Env where
+  ts   : Int := 0
+  body : Nat := 0
+deriving DecidableEq, Repr
+
 structure Entry where
   id  : Nat
   att : Nat
   loc : Loc
+  env : Env := {}
+deriving DecidableEq, Repr
+
+/-- ghost envelope log of a channel: what was put on it and what was handed to consumers -/
+inductive EEv where
+  | put (id : Nat) (env : Env)
+  | deliver (conn id att : Nat) (env : Env)
 deriving DecidableEq, Repr
 
 structure Client where
@@ -88,6 +103,7 @@ structure Chan where
   requeueCount : Nat := 0
   timeoutCount : Nat := 0
   hist         : List Ev := []
+  elog         : List EEv := []
   pendingFin   : List Nat := []
 deriving DecidableEq, Repr
 
@@ -197,8 +213,8 @@ def finClientPart (c : Chan) (k : Nat) : Chan :=
   { c with clients := updC c.clients k (fun cl => { cl with finCount := cl.finCount + 1, inFlight := cl.inFlight - 1 }) }
 
 inductive Op where
-  | put (id : Nat)
-  | putDeferred (id : Nat) (pri : Int)
+  | put (id : Nat) (env : Env := {})
+  | putDeferred (id : Nat) (pri : Int) (env : Env := {})
   | addClient (conn : Nat) (msgTimeout : Int) (sample : Nat)
   | removeClient (conn : Nat)
   | rdy (conn : Nat) (n : Int)
@@ -246,19 +262,22 @@ def doDeliver (c : Chan) (cl : Client) (k id : Nat) (now : Int) : Chan × Out :=
               memLen := if c.memLen > 0 then c.memLen - 1 else c.memLen,
               dqLen := if c.memLen > 0 then c.dqLen else c.dqLen - 1,
               clients := updC c.clients k (fun cl => { cl with inFlight := cl.inFlight + 1, msgCount := cl.msgCount + 1, lgr := cl.rdy, decr := false, armed := false }),
-              hist := Ev.deliver k id (e.att + 1) :: c.hist }, .msg (e.att + 1))
+              hist := Ev.deliver k id (e.att + 1) :: c.hist,
+              elog := EEv.deliver k id (e.att + 1) e.env :: c.elog }, .msg (e.att + 1))
 
 def step (conf : Conf) (c : Chan) : Op → Chan × Out
-  | .put id =>
+  | .put id env =>
     -- Channel.PutMessage: put, then messageCount++ (ids are unique: C12)
     if nFanout c.hist id != 0 || hasId c.msgs id then (c, .reject "id-reused") else
-    (enqueue { c with msgs := ⟨id, 0, .queued⟩ :: c.msgs,
+    (enqueue { c with msgs := { id := id, att := 0, loc := .queued, env := env } :: c.msgs,
+                      elog := EEv.put id env :: c.elog,
                       messageCount := c.messageCount + 1,
                       hist := Ev.fanout id false :: c.hist } id, .ok)
-  | .putDeferred id pri =>
+  | .putDeferred id pri env =>
     -- Channel.PutMessageDeferred: messageCount++, StartDeferredTimeout
     if nFanout c.hist id != 0 || hasId c.msgs id then (c, .reject "id-reused") else
-    ({ c with msgs := ⟨id, 0, .deferred pri⟩ :: c.msgs,
+    ({ c with msgs := { id := id, att := 0, loc := .deferred pri, env := env } :: c.msgs,
+              elog := EEv.put id env :: c.elog,
               messageCount := c.messageCount + 1,
               hist := Ev.fanout id true :: c.hist }, .ok)
   | .addClient k mt sample =>
